@@ -175,6 +175,14 @@ func verifC08(t *testing.T, r *vfh.Rand, out *vfh.Out) {
 		}
 		// …and failing while in flight
 		runShutdown(t, out, term, nil, 3500*time.Millisecond+1, []time.Duration{0, 2 * time.Second, 10 * time.Millisecond}, 1, 0)
+		// the stop at the very instant the first periodic RA is due (3 s): the timer and the
+		// cancellation race; whichever wins, the final RA must come last and nothing after Run
+		// has returned (repeated: the interleaving differs from run to run)
+		for k := vfh.N(120, 1500); k > 0; k-- {
+			for _, l := range []time.Duration{0, 3 * time.Millisecond, 400 * time.Millisecond} {
+				runShutdown(t, out, term, nil, 3*time.Second, []time.Duration{0, l, 7 * time.Millisecond}, -1, 0)
+			}
+		}
 	}
 }
 
